@@ -10,7 +10,10 @@ from .. import values as V
 from . import common
 from .common import py_elementwise, do_arith, BIN_OPS, UN_OPS, CMP_OPS, LOG_OPS, ARITH_VALUES
 
-RULE = ("every subset of None positions for lengths 1-5 (62 masks) x 8 dtypes is run through: 10 arithmetic operators in 5 operand forms "
+from . import recompute
+
+RULE = ("[plus the shared recompute-after-history monitor: this property's operations evaluated on long-lived objects between in-place writes / renames must equal the same operations on fresh objects rebuilt from the current contents] "
+	"every subset of None positions for lengths 1-5 (62 masks) x 8 dtypes is run through: 10 arithmetic operators in 5 operand forms "
 	"(None must appear exactly at the positions where an operand is None and the operation must not fail because of it); 6 comparisons and "
 	"& | ^ in vector/list/scalar/reflected forms (False at None, non-nullable bool result, equal to the None-free comparison elsewhere); "
 	"sum/mean/min/max/stdev/any/all against the reduction of the None-free list; per-group aggregates; len; isna/dropna/fillna triples with "
@@ -25,7 +28,7 @@ EXHAUSTIVE = {"flag": True, "scope": "all None-position subsets for lengths 1..5
 ANCHOR_FUNCS = ["vector:Vector._elementwise_operation", "vector:Vector._elementwise_compare", "vector:Vector.sum", "vector:Vector.mean",
 	"vector:Vector.max", "vector:Vector.min", "vector:Vector.stdev", "vector:Vector.fillna", "vector:Vector.dropna", "vector:Vector.isna",
 	"vector:_Date._elementwise_compare"]
-REQUIRED_STRATA = {"arith-none": 1500, "compare-none": 1500, "reduce": 1000, "na-triple": 800, "group-reduce": 50}
+REQUIRED_STRATA = {"recompute": 200, "arith-none": 1500, "compare-none": 1500, "reduce": 1000, "na-triple": 800, "group-reduce": 50}
 
 KINDS = ["bool", "int", "float", "complex", "str", "bytes", "date", "datetime"]
 PARTNER = {"bool": ["int", "bool"], "int": ["int", "float"], "float": ["int", "float"], "complex": ["int", "complex"], "str": ["str", "int"],
@@ -194,7 +197,10 @@ def run_reduce(chk, spec):
 	except Exception:
 		chk.skip("reduce-python-undefined")
 		return
-	v = Vector(list(vals))
+	v = build_vector(chk, spec) if spec.get("build") else Vector(list(vals))
+	if v is None:
+		chk.skip("reduce-build-refused")
+		return
 	o = call(getattr(v, red))
 	chk.judged("reduce", ("reduce", red, spec.get("kind"), spec.get("mask")))
 	if len(v) != len(vals):
@@ -265,6 +271,16 @@ def build_vector(chk, spec):
 			chk.counters["build_sliceassign_refused"] += 1
 			return None
 		return v
+	if how == "lshift-vector":
+		# the None arrives inside a same-kind Vector appended with <<
+		k = next((i for i, x in enumerate(vals) if x is None), None)
+		if k is None or k == 0 or not any(x is not None for x in vals[k:]):
+			return Vector(list(vals), name=spec.get("name"))
+		o = call(lambda: Vector(list(vals[:k])) << Vector(list(vals[k:])))
+		if not o.ok or list(o.value._underlying) != list(vals):
+			chk.counters["build_lshift_vector_unusable"] += 1
+			return None
+		return o.value
 	if how == "lshift":
 		k = max(i for i, x in enumerate(vals) if x is not None) + 1    # longest None-free-start prefix that ends with a value
 		head = [x for x in vals[:k]]
@@ -342,6 +358,7 @@ def run_na(chk, spec):
 
 RUNNERS = {"arith_none": run_arith_none, "compare_none": run_compare_none, "compare_meta": run_compare_meta, "reduce": run_reduce,
 	"group_reduce": run_group_reduce, "na": run_na}
+RUNNERS["recompute"] = recompute.runner("C06")
 
 WIDER = {"int": 2.5, "float": 1 + 1j, "date": V.DT0}
 
@@ -353,6 +370,7 @@ def all_masks(maxlen=5):
 
 
 def run(chk):
+	recompute.add_cases(chk, "C06")
 	rng = chk.rng
 	idx = 0
 	for mask in all_masks():
@@ -410,18 +428,21 @@ def run(chk):
 			# reductions
 			for red in ("sum", "mean", "min", "max", "stdev", "any", "all"):
 				chk.case("reduce", {"values": a, "red": red, "kind": kind, "mask": ms}, "reduce")
+				if any(mask) and not all(mask) and red in ("sum", "mean", "max", "all"):
+					chk.case("reduce", {"values": a, "red": red, "kind": kind, "mask": ms, "build": ["setitem", "lshift-vector", "slice-assign"][idx % 3]}, "reduce-built")
 			# isna / dropna / fillna
 			fills = [("same", rng.choice(ARITH_VALUES[kind])), ("none", None)]
 			if kind in WIDER:
 				fills.append(("wider", WIDER[kind]))
+				fills.append(("wider", {"int": 2.0, "float": complex(3, 0), "date": V.datetime(2020, 1, 31, 0, 0)}[kind]))     # wider kind, value equal to a narrower one
 			fills.append(("unrelated", "zz" if kind != "str" else 5))
 			for fc, fill in fills:
 				if all(mask):
 					fc = "into-all-none" if fill is not None else "none"
-				for build in ("direct", "setitem", "slice-assign", "lshift"):
+				for build in ("direct", "setitem", "slice-assign", "lshift", "lshift-vector"):
 					if build != "direct" and (not any(mask) or all(mask)):
 						continue
-					chk.case("na", {"values": a, "fill": fill, "fillclass": fc, "kind": kind, "mask": ms, "name": rng.choice([None, "nm"]) if build != "lshift" else None,
+					chk.case("na", {"values": a, "fill": fill, "fillclass": fc, "kind": kind, "mask": ms, "name": rng.choice([None, "nm"]) if not build.startswith("lshift") else None,
 						"build": build}, "na-triple-" + build)
 	# zero / falsy values next to None (reductions and dropna must filter None, not falsy values)
 	for _ in range(200 if chk.quick() else 1200):
